@@ -22,7 +22,32 @@ structure FStore where
   base : Store := {}
   maxTS : Nat := 0
   async : List AsyncInfo := []
+  overlapped : List (Bytes × Nat) := []   -- (key, start ts): rolled back there, but the marker's version is a commit record's
   deriving Repr, Inhabited
+
+/-- Overlapped rollback (TiKV: `has_overlapped_rollback` / protected rollback).  In this profile the store chooses
+    commit timestamps itself (async commit, 1PC), so a commit ts can equal another transaction's start ts: a rollback
+    marker and a commit record then compete for one version.  The commit record always stays; that the other
+    transaction is rolled back on the key is remembered in `overlapped`.  `repairOverlap old new` is applied after every
+    base-store step: it puts back a data record that a marker replaced, and notes a marker that a data record replaced. -/
+def repairOverlap (old new : List (Bytes × Entry)) : List (Bytes × Entry) × List (Bytes × Nat) :=
+  new.foldl (fun (acc : List (Bytes × Entry) × List (Bytes × Nat)) p =>
+    let (k, e) := p
+    let oe := getEntry old k
+    -- data records of the old entry whose version now holds a rollback marker of another transaction
+    let lost := oe.writes.filter fun w => w.vt != .rollback &&
+      e.writes.any fun w' => w'.commitTS == w.commitTS && w'.vt == .rollback && w'.startTS != w.startTS
+    -- rollback markers of the old entry whose version now holds a data record
+    let covered := oe.writes.filter fun w => w.vt == .rollback &&
+      e.writes.any fun w' => w'.commitTS == w.commitTS && w'.vt != .rollback
+    let marks := (lost.filterMap fun w => (e.writes.find? fun w' => w'.commitTS == w.commitTS).map fun w' => (k, w'.startTS))
+      ++ covered.map fun w => (k, w.startTS)
+    let writes' := lost.foldl (fun ws w => putWrite ws w) e.writes
+    (acc.1 ++ [(k, { e with writes := writes' })], acc.2 ++ marks)) ([], [])
+
+def FStore.settle (f : FStore) (newBase : Store) : FStore :=
+  let (kv', marks) := repairOverlap f.base.kv newBase.kv
+  { f with base := { newBase with kv := kv' }, overlapped := marks ++ f.overlapped }
 
 def FStore.bump (f : FStore) (ts : Nat) : FStore := if ts == maxU64 then f else { f with maxTS := max f.maxTS ts }
 
@@ -55,7 +80,12 @@ def onePCActs (acts : List Act) (startTS commitTS : Nat) : List Act :=
     | other => [other]
 
 def fprewrite (f : FStore) (r : PrewriteReq) (x : FPrewriteExtra) : FStore × FPrewriteResp :=
-  let (errs, acts) := prewriteLoop f.base r r.mutations 0 [] []
+  let (errs0, acts) := prewriteLoop f.base r r.mutations 0 [] []
+  -- a transaction rolled back on a key by an overlapped rollback is rejected like one with a visible marker
+  let rolled := r.mutations.find? fun m => f.overlapped.contains (m.key, r.startTS)
+  let errs := match rolled with
+    | some m => [some (KErr.alreadyRollbacked r.startTS m.key)]
+    | none => errs0
   if errs.any Option.isSome then (f, { errs := errs })
   else if !(x.useAsync || x.tryOnePC) then
     ({ f with base := { f.base with kv := applyBatch f.base.kv acts } }, { errs := errs })
@@ -65,7 +95,7 @@ def fprewrite (f : FStore) (r : PrewriteReq) (x : FPrewriteExtra) : FStore × FP
       -- cannot honour the bound: fall back to ordinary 2PC locks, answer min_commit_ts = 0
       ({ f with base := { f.base with kv := applyBatch f.base.kv acts } }, { errs := errs })
     else if x.tryOnePC then
-      ({ f with base := { f.base with kv := applyBatch f.base.kv (onePCActs acts r.startTS m) } },
+      (f.settle { f.base with kv := applyBatch f.base.kv (onePCActs acts r.startTS m) },
        { errs := errs, onePCCommitTS := m })
     else
       -- async commit: every lock carries min_commit_ts = m, the primary also the secondaries
@@ -94,7 +124,7 @@ def fcheckTxnStatus (f : FStore) (primary : Bytes) (lockTS callerStartTS current
     | none => (f, {})
   else
     let (s', r) := checkTxnStatus f.base primary lockTS callerStartTS currentTS rollbackIfNotExist resolvingPessimistic
-    ({ f with base := s' }, { base := r })
+    (f.settle s', { base := r })
 
 structure SecLock where
   key : Bytes
@@ -127,7 +157,7 @@ def fcheckSecondaryLocks (f : FStore) (keys : List Bytes) (startTS : Nat) : FSto
         | some c => if c.vt != .rollback then (acts, locks, some c.commitTS) else (acts, locks, some 0)
         | none => (acts ++ [rollbackMarker k startTS], locks, some 0)) ([], [], none)
   let (acts, locks, missing) := go
-  let f' := { f with base := { f.base with kv := applyBatch f.base.kv acts } }
+  let f' := f.settle { f.base with kv := applyBatch f.base.kv acts }
   match missing with
   | some c => (f', { locks := [], commitTS := c })
   | none => (f', { locks := locks })
@@ -135,7 +165,7 @@ def fcheckSecondaryLocks (f : FStore) (keys : List Bytes) (startTS : Nat) : FSto
 /-- commit in the full profile: below an async lock's min_commit_ts the commit is refused like any other lock -/
 def fcommit (f : FStore) (keys : List Bytes) (startTS commitTS : Nat) : FStore × Option KErr :=
   let (s', e) := commit f.base keys startTS commitTS
-  ({ f with base := s' }, e)
+  (f.settle s', e)
 
 /-! ### the serving step: command tokens in, wire answer out (superset of MvccRpc.rpcExec) -/
 
@@ -189,9 +219,9 @@ def frpcExec (f : FStore) (rstart rend : Bytes) (w : List String) : Option (FSto
   | "plock" :: _p :: st :: fu :: _ => do
     let st ← st.toNat?; let fu ← fu.toNat?
     let (s', a) ← rpcExec f.base rstart rend w
-    pure ({ ((f.bump st).bump fu) with base := s' }, a)
+    pure (((f.bump st).bump fu).settle s', a)
   | _ => do
     let (s', a) ← rpcExec f.base rstart rend w
-    pure ({ f with base := s' }, a)
+    pure (f.settle s', a)
 
 end CGV.MvccFull
